@@ -393,6 +393,10 @@ def check_import(ctx, fr):
     body = [ast.unparse(s) for s in lo.body]
     ok = "node, = graph.neighbors(output)" in body or "(node,) = graph.neighbors(output)" in body
     ctx.ob("R17.7", ZX + ".Diagram.from_pyzx:output-neighbour", ok, found=body[:2], required="an output boundary has exactly one neighbour", mod=ZX, node=lo, sig="output-neighbour")
+    ov_ = lo.target.elts[1].id
+    shape.match_stmts(ctx, "R17.7", ZX + ".Diagram.from_pyzx:output-edge", [s for s in lo.body if isinstance(s, ast.Assign) and ast.unparse(s.targets[0]) in ("etype", "hadamard")],
+                      ["etype = graph.edge_type((node, output))", "hadamard = H if etype == EdgeType.HADAMARD else Id(1)"], {ov_: "output"}, mod=ZX, node=lo, sig="output-edge", exact=True,
+                      required="the Hadamard applied at an output is that of the edge from its own neighbour to it")
     dg = next((s for s in lo.body if isinstance(s, ast.Assign) and ast.unparse(s.targets[0]) == "diagram"), None)
     ctx.need(dg is not None, "from_pyzx: the output loop does not extend the diagram")
     shape.match(ctx, "R17.7", ZX + ".Diagram.from_pyzx:output-layer", dg.value, "diagram >> swaps >> Id(target) @ hadamard @ Id(len(scan) - target - 1)", {tv: "target"}, mod=ZX, node=dg, sig="output-layer",
